@@ -2484,7 +2484,12 @@ class PGPKey(Armorable, ParentRef, PGPObject):
         sigv = SignatureVerification()
         for sig, subj in sspairs:
             if self.fingerprint.keyid != sig.signer and sig.signer in self.subkeys:
-                sigv &= self.subkeys[sig.signer].verify(subj, sig)
+                # a subkey is no better than the key it belongs to: what disqualifies this key disqualifies its subkeys' signatures
+                own_issues = self.check_management()
+                if own_issues and own_issues.causes_signature_verify_to_fail:
+                    sigv.add_sigsubj(sig, self, subj, own_issues)
+                else:
+                    sigv &= self.subkeys[sig.signer].verify(subj, sig)
 
             else:
                 if isinstance(subj, PGPKey):
